@@ -16,6 +16,16 @@ CLAIMS = {
          "Decides structural clauses only: encoder and decoder symbol tables agree with RFC 1951 and with each other over all 256 length indices and 32768 distances; fixed-block code lengths written by both sides agree; the dictionary mirror copy is paired with every dictionary write under the right guard; the grow-and-retry loops of the vector helpers account exactly; level clamping (levels above 10 behave as 10); every flush_block result is checked. NOT decided: that LZ parsing, Huffman construction and bit packing reproduce the input for all data (round-trip equality), absence of panics on the compression path."),
  "C02": ("write-back dataflow, dominance and path tables on MIR",
          "Decides: every cached state variable of the three compress routines is written back before each return and before calls that read it; flush_block is never entered with output pending (result discipline, caller set, zero result means nothing pending); the sticky-Finish / error gate and the pending-output drain of compress_inner; gating of the final block; conservation of pending output bookkeeping (copied + pending = produced); bit-buffer carry between blocks; Done only when finished and drained. NOT decided: decodability of the concatenated output, absence of panics for every schedule."),
+ "C04": ("state-machine extraction, guard atoms, finite-domain evaluation of the header predicate on MIR",
+         "Decides: every format violation the decoder recognises (reserved block type, stored length check, table sizes 286/30, repeat without previous, code-size sum, over-subscribed / incomplete code sets, undefined length/distance symbols, distance before start) is guarded by the RFC 1951 constant, identically on the fast and slow paths; failure states are absorbing and equal is_failure(); Done has a single origin; NeedsMoreInput / FailedCannotMakeProgress originate only in end_of_input, reached only with the input exhausted; validate_zlib_header equals the RFC 1950 predicate on all 2^16 header pairs x buffer modes. NOT decided: correctness of the Kraft-sum arithmetic beyond the recognised guards, that produced bytes equal what the specification defines."),
+ "C05": ("path tables on the prefix / epilogue of the decoder, state-machine extraction",
+         "Decides: BadParam is returned exactly for a non power-of-two ring or out_pos > len, before any access to the decoder state and with counts (0,0); failure states are absorbing; the returned counts are (offered − left − undone, position − out_pos) on every exit. NOT decided here: absence of panics in general (see the panic census once registered), termination, slice-index panics inside transfer."),
+ "C06": ("must-pass-through and value-DAG rules on the decoder epilogue",
+         "Decides (narrow): every exit whose status is not a starvation status hands back the whole unread bytes of the bit buffer and subtracts them from the reported count; the final-block sequence pad → undo → rewind iterator → mask runs in that order; undo_bytes computes min(num_bits/8, max) and keeps the rest. NOT decided: that the count is right for every bit position at which a final block can end."),
+ "C07": ("write-back / liveness over the state-machine loop",
+         "Decides: all decoder registers are loaded from and stored back to the persistent state around every call (also in decompress_fast), no other local carries state across loop iterations, and HasMoreOutput overrides NeedsMoreInput exactly when the output window is full outside the trailer read. NOT decided: equality of output across chunkings."),
+ "C20": ("compiler verdicts per configuration, rustc_lexer token scan, compile-time witness crate",
+         "Full claim: every buildable configuration (8 host feature sets, 2 thumbv7em build-std configurations, x86_64-unknown-none) compiles with an unconditional in-crate #![forbid(unsafe_code)] in force, so rustc itself rejects any unsafe code; a token scan of every source file (including code compiled out everywhere) finds no unsafe / linkage attribute / include; the core-only sysroot builds prove no_std + no allocator; a witness crate instantiates Send + Sync + Clone + 'static for the public state types (with compile_fail twins in the thorough tier)."),
  "C12": ("path tables and must-write effects on MIR",
          "Decides: the bit sequence of every flush marker equals the RFC 1951 empty stored / empty fixed block, with the *Opt forms only when unaligned; Full flush clears hash chains and dictionary size after a successful block; markers are emitted only with all input consumed, lookahead empty and nothing pending; flush conversions are total and value preserving; exits of the deflate() driver loop. NOT decided: prefix decodability and independence of the post-flush remainder for all inputs."),
  "C13": ("path-sensitive decision tables on MIR",
